@@ -425,3 +425,106 @@ Definition misub (a b : Mx) : Mx := mcopy (inplace_self a (msub a b)).
 Definition mimul (a b : Mx) : Mx := mcopy (inplace_self a (mmul a b)).
 Definition mimatmul (a b : Mx) : Mx := mcopy (inplace_self a (mmatmul a b)).
 Definition mipow (a : Mx) (n : nat) : Mx := mcopy (inplace_self a (mpow a n)).
+
+(* ---- a pool of Matrix objects and API steps on it (histories on the same objects) ----
+   Every name in a program is an index into the pool.  A call that builds a result appends it; a call
+   documented as in-place replaces the state of its target (and, for the augmented assignments, also
+   appends the value of the statement, which is `self.copy()`); nothing else ever changes. *)
+Inductive pstep :=
+| PProbe (i : nat)                                   (* p[i].to_wirevector() *)
+| PCopy (i : nat) | PTranspose (i : nat) | PReversed (i : nat)
+| PGetitem (i : nat) (kr kc : key1)
+| PReshape (i : nat) (nr nc : Z) (orderF : bool) | PFlatten (i : nat) (orderF : bool)
+| PPow (i n : nat)
+| PAdd (i j : nat) | PSub (i j : nat) | PMul (i j : nat) | PMatmul (i j : nat)
+| PHstack (l : list nat) | PVstack (l : list nat) | PConcat (l : list nat) (ax : Z)
+| PReduce (w : Z) (i : nat) (ax : axis) (b : option Z)   (* w: 0 sum, 1 min, 2 max, 3 argmax; axis 0/1 *)
+| PIadd (i j : nat) | PIsub (i j : nat) | PImul (i j : nat) | PImatmul (i j : nat) | PIpow (i n : nat)
+| PSetitemS (i : nat) (kr kc : key1) (x : Z) | PSetitemM (i : nat) (kr kc : key1) (j : nat)
+| PPut (i : nat) (ind v : list Z) (mode : pmode)
+| PSetbits (i : nat) (b : Z).
+
+Fixpoint pset (p : list Mx) (i : nat) (m : Mx) : list Mx :=
+  match p, i with
+  | [], _ => []
+  | _ :: t, O => m :: t
+  | x :: t, S k => x :: pset t k m
+  end.
+Fixpoint pgets (p : list Mx) (l : list nat) : option (list Mx) :=
+  match l with
+  | [] => Some []
+  | i :: rest => match nth_error p i, pgets p rest with
+                 | Some m, Some r => Some (m :: r)
+                 | _, _ => None
+                 end
+  end.
+Definition padd1 (p : list Mx) (o : option Mx) : option (list Mx) :=
+  match o with Some m => Some (p ++ [m]) | None => None end.
+Definition pun (p : list Mx) (i : nat) (f : Mx -> option Mx) : option (list Mx) :=
+  match nth_error p i with Some a => padd1 p (f a) | None => None end.
+Definition pbin (p : list Mx) (i j : nat) (f : Mx -> Mx -> option Mx) : option (list Mx) :=
+  match nth_error p i, nth_error p j with Some a, Some b => padd1 p (f a b) | _, _ => None end.
+Definition pupd (p : list Mx) (i : nat) (f : Mx -> option Mx) : option (list Mx) :=
+  match nth_error p i with
+  | Some a => match f a with Some m => Some (pset p i m) | None => None end
+  | None => None
+  end.
+(* augmented assignment: the target becomes self', the statement's value self'.copy() is a new object *)
+Definition pinpl (p : list Mx) (i j : nat) (f : Mx -> Mx -> option Mx) : option (list Mx) :=
+  match nth_error p i, nth_error p j with
+  | Some a, Some b => match f a b with Some s => Some (pset p i s ++ [mcopy s]) | None => None end
+  | _, _ => None
+  end.
+Definition if_shape (c : bool) (m : Mx) : option Mx := if c then Some m else None.
+Definition is_square (a : Mx) : bool := Nat.eqb (rows_of a) (cols_of a).
+
+Definition papply (p : list Mx) (s : pstep) : option (list Mx) :=
+  match s with
+  | PProbe i => match nth_error p i with Some _ => Some p | None => None end
+  | PCopy i => pun p i (fun a => Some (mcopy a))
+  | PTranspose i => pun p i (fun a => Some (mtranspose a))
+  | PReversed i => pun p i (fun a => Some (mreversed a))
+  | PGetitem i kr kc => pun p i (fun a => mgetitem a kr kc)
+  | PReshape i nr nc f => pun p i (fun a => mreshape a nr nc f)
+  | PFlatten i f => pun p i (fun a => mflatten a f)
+  | PPow i n => pun p i (fun a => if_shape (is_square a) (mpow a n))
+  | PAdd i j => pbin p i j (fun a b => if_shape (same_shape a b) (madd a b))
+  | PSub i j => pbin p i j (fun a b => if_shape (same_shape a b) (msub a b))
+  | PMul i j => pbin p i j (fun a b => if_shape (same_shape a b) (mmul a b))
+  | PMatmul i j => pbin p i j (fun a b => if_shape (Nat.eqb (cols_of a) (rows_of b)) (mmatmul a b))
+  | PHstack l => match pgets p l with Some ms => padd1 p (mhstack ms) | None => None end
+  | PVstack l => match pgets p l with Some ms => padd1 p (mvstack ms) | None => None end
+  | PConcat l ax => match pgets p l with Some ms => padd1 p (mconcatenate ms ax) | None => None end
+  | PReduce w i ax b =>
+      pun p i (fun a => match ax with
+                        | AxNone => None
+                        | _ => Some (if w =? 0 then msum a ax b else if w =? 1 then mmin a ax b
+                                     else if w =? 2 then mmax a ax b else margmax a ax b)
+                        end)
+  | PIadd i j => pinpl p i j (fun a b =>
+      if_shape (same_shape a b) (let n := madd a b in mset_bits (MkMx (bits a) (maxb a) (dat n)) (bits n)))
+  | PIsub i j => pinpl p i j (fun a b => if_shape (same_shape a b) (inplace_self a (msub a b)))
+  | PImul i j => pinpl p i j (fun a b => if_shape (same_shape a b) (inplace_self a (mmul a b)))
+  | PImatmul i j => pinpl p i j (fun a b =>
+      if_shape (Nat.eqb (cols_of a) (rows_of b)) (inplace_self a (mmatmul a b)))
+  | PIpow i n => pinpl p i i (fun a _ => if_shape (is_square a) (inplace_self a (mpow a n)))
+  | PSetitemS i kr kc x => pupd p i (fun a => msetitem_s a kr kc x)
+  | PSetitemM i kr kc j => match nth_error p j with
+                           | Some v => pupd p i (fun a => msetitem_m a kr kc v)
+                           | None => None
+                           end
+  | PPut i ind v mode => pupd p i (fun a => mput_list a ind v mode)
+  | PSetbits i b => pupd p i (fun a => Some (mset_bits a b))
+  end.
+
+(* the pool after every step (stops at the first step that raises) *)
+Fixpoint prun (p : list Mx) (ss : list pstep) : list (list Mx) :=
+  match ss with
+  | [] => []
+  | s :: rest => match papply p s with
+                 | Some p' => p' :: prun p' rest
+                 | None => []
+                 end
+  end.
+Definition prun_out (p : list Mx) (ss : list pstep) : list (list (Z * mat * Z * Z)) :=
+  map (map outx) (prun p ss).
